@@ -80,7 +80,7 @@ NOT_APPLICABLE = [{"property_id": "C%02d" % i, "reason": _PENDING} for i in rang
 
 CHECKS["C04"] = {
     "test": "TestC04",
-    "quick": {"shards": 8, "checks": 60000},
+    "quick": {"shards": 8, "checks": 40000},
     "thorough": {"shards": 16, "checks": 200000, "fuzz": {"target": "FuzzC04", "seconds": 240}},
     "rule": "a small real forest (0..6 generated blocks) gives the state for Pollard.Verify, MapPollard.Verify and VerifyPartialProof (generated TotalRows, "
             "full/partial, remember on/off); Verify and Stump.Update get that stump, or the same forest embedded at the low end of a stump with up to 2^62+.. "
@@ -277,7 +277,7 @@ NOT_APPLICABLE[:] = [e for e in NOT_APPLICABLE if e["property_id"] not in CHECKS
 CHECKS["C13"] = {
     "test": "TestC13",
     "level": "fault_enumeration",
-    "quick": {"shards": 8, "checks": 1500},
+    "quick": {"shards": 8, "checks": 1000},
     "thorough": {"shards": 16, "checks": 2500},
     "rule": "a rapid-generated step sequence (block / undo / Verify(remember); for a partial forest also Prune and Ingest) brings a Pollard, a full or a partial "
             "MapPollard (generated TotalRows) to a reachable state that is first checked against the reference model. Then, per state, enumerated: (a) round trip through "
@@ -350,7 +350,7 @@ NOT_APPLICABLE[:] = [e for e in NOT_APPLICABLE if e["property_id"] not in CHECKS
 
 CHECKS["C17"] = {
     "test": "TestC17",
-    "quick": {"shards": 8, "checks": 12000},
+    "quick": {"shards": 8, "checks": 8000},
     "thorough": {"shards": 16, "checks": 20000},
     "rule": "honest block histories (C01 shapes, deletions in drawn - mostly unsorted - request order, generated remember flags) on a Stump, a Pollard, a full and a partial "
             "MapPollard (generated TotalRows; in half of the cases 0, i.e. equal to the rows the forest needs, where a map forest translates and therefore copies nothing). "
